@@ -199,4 +199,17 @@ CHECKS = {
         assumptions=["at most one GER event per L2 block (the table's primary key)", "fixed chain between reorgs"],
         trusted_base=["hand model Model/LastGER.lean"],
     ),
+    "C15": dict(
+        modules=["AggkitModel.Properties.C15"],
+        scenarios=[dict(name="oracle")],
+        generated=[],
+        leanchecker=True,
+        level_text="Proved in Lean 4 for every sequence of ticks and environments (any relative speed of finality, syncing and ticking; any transient error of each dependency): C15_safe — every injected root is the most recent L1 info root at or below a block that had the configured finality when sampled "
+                   "(at this or an earlier tick), which the syncer has reached, and which the L2 contract did not have when checked; C15_skip_if_present; C15_progress — once a finalized block F was sampled and only the syncer was behind, F stays the target over any number of such ticks and the first tick at which the syncer has reached F injects (or finds injected) the most recent root at or below F: newer finalized blocks cannot starve the oracle. "
+                   "Tie: the real AggOracle tick (verif hook) over the REAL L1 info tree processor and facade (GetLatestInfoUntilBlock), scripted L1 client and L2 sender with injected failures, vs the compiled model; monitors evaluate safety and progress on the implementation's actions. Genuine defect found and fixed in /repo: F11 (sticky target was a dead store).",
+        level_note="Trusted: Lean kernel; model/code correspondence (generator-bounded); the ticker/goroutine of Start is not exercised (one tick = one call); the L2 sender contract is a fake.",
+        rule="seeded worlds: finality advancing 1-12 blocks per tick (+ jumps), syncer lag in [-4, 11] blocks behind the newest finalized block with jitter, 35% of synced blocks carrying 1-2 info updates, each dependency failing 6% of the time, third parties injecting roots; distinct non-trivial = distinct (world, tick, outcome kind)",
+        assumptions=["one oracle instance", "finalized blocks are never replaced"],
+        trusted_base=["hand model Model/Oracle.lean"],
+    ),
 }
